@@ -180,6 +180,14 @@ theorem strongly_equivalent_iff (t : StrongTask) (hrep : t.rep = .tauStar)
     · exact hR ((hall M hs).mp hL)
     · exact hL ((hall M hs).mpr hR)
 
+/-- Why `NoSymbolConflict` is a hypothesis (known finding): for `p. q :- tp_ < tp.` vs `p. q.` the
+    constant `tp` collides with the t-copy of `p/0` and is renamed `tp__s`; `tp < tp_` but
+    `tp_ < tp__s`, so the emitted problems speak about a different order than the programs. -/
+theorem rename_changes_order_witness :
+    strongRenameIssues ⟨[⟨.basic ⟨"p", []⟩, []⟩, ⟨.basic ⟨"q", []⟩, [.cmp .lt (.pre (.sym "tp_")) (.pre (.sym "tp"))]⟩],
+      [⟨.basic ⟨"p", []⟩, []⟩, ⟨.basic ⟨"q", []⟩, []⟩], .sequential, .universal, .tauStar, false, false⟩ 8 =
+      some [("tp", "tp_"), ("tp", "tp_")] := by decide
+
 /-- Non-vacuity of the hypotheses: a task with a symbolic constant and variables satisfies
     `NoSymbolConflict` and the pass bound (kernel-evaluated). -/
 example : NoSymbolConflict ⟨[⟨.basic ⟨"p", [.pre (.sym "a")]⟩, []⟩],
